@@ -172,3 +172,60 @@ def canary(env):
     for k in range(3): env.angle_base(e[k] / 2)
     q = raw(cv.euler2SO3(e))
     env.eq('Rx Ry Rz (wrong order)', S.quat_matrix(T, q), Rx(T, e[0]) @ Ry(T, e[1]) @ Rz(T, e[2]))
+
+
+@bounded('C11.float_roundtrip', functions=[f'{CV}:from_matrix', f'{CV}:mat2SO3', f'{CV}:euler2SO3', f'{LT}:LieTensor.euler'])
+def float_roundtrip(rng, tier):
+    """real code, float32/float64: from_matrix(X.matrix()) with check=True never raises for valid elements (uniform rotations, all four branch
+    regions, angle pi +- 1e-12..1e-3 and exactly pi, coordinate axes, scales 1e-3..1e3), returns a unit quaternion with the same matrix;
+    euler2SO3(X.euler()) is the same rotation away from gimbal lock"""
+    import torch, math, pypose as pp
+    N = 100 if tier == 'quick' else 1500
+    fails = []; evals = 0; samples = []
+    for g in GROUPS:
+        for dtype in (torch.float64, torch.float32):
+            eps = torch.finfo(dtype).eps
+            for k in range(N):
+                kind = rng.choice(['uniform', 'nearpi', 'pi', 'axis', 'small'])
+                ax = [rng.gauss(0, 1) for _ in range(3)]
+                if kind == 'axis' or (kind == 'pi' and rng.random() < 0.5): ax = [[1.0, 0, 0], [0, 1.0, 0], [0, 0, 1.0]][rng.randrange(3)]
+                n = math.sqrt(sum(a * a for a in ax)); ax = [a / n for a in ax]
+                ang = {'uniform': rng.uniform(-math.pi, math.pi), 'nearpi': math.pi - rng.choice([1e-12, 1e-9, 1e-6, 1e-3]) * rng.choice([-1, 1]),
+                       'pi': math.pi, 'axis': rng.choice([math.pi / 2, math.pi, -math.pi / 2, 1.0]), 'small': rng.choice([0.0, 1e-9, 1e-4])}[kind]
+                q = [ax[0] * math.sin(ang / 2), ax[1] * math.sin(ang / 2), ax[2] * math.sin(ang / 2), math.cos(ang / 2)]
+                if kind == 'pi': q[3] = 0.0
+                t = [rng.gauss(0, 3) for _ in range(3)]; s = [10 ** rng.uniform(-3, 3)]
+                data = {'SO3': q, 'SE3': t + q, 'RxSO3': q + s, 'Sim3': t + q + s}[g]
+                X = pp.LieTensor(torch.tensor(data, dtype=dtype), ltype=getattr(pp, g + '_type'))
+                M = X.matrix()
+                sig = f'{g}/{str(dtype).split(".")[-1]}/{kind}'
+                lay = rng.choice(['full', '3x3', '3x4'])
+                Min = M if lay == 'full' else (M[:3, :3] if lay == '3x3' else (M[:3, :4] if M.shape[-1] == 4 else M))
+                try:
+                    Y = pp.from_matrix(Min, getattr(pp, g + '_type'), check=True)
+                except Exception as e:
+                    fails.append(dict(clause='valid_input_rejected', signature=sig, error=f'{type(e).__name__}: {e}'[:120], scale=s[0])); continue
+                evals += 1
+                tq = S.parts(g, Y.tensor())[1]
+                if abs(float(tq.double().norm()) - 1) > 64 * eps:
+                    fails.append(dict(clause='unit_quaternion', signature=sig, err=abs(float(tq.double().norm()) - 1)))
+                M2 = Y.matrix()
+                ref = M.double(); got = M2.double()
+                if lay == '3x3' and g in ('SE3', 'Sim3'): ref = ref.clone(); ref[:3, 3] = 0
+                sc = float(ref[:3, :3].abs().max())
+                if float((got[:3, :3] - ref[:3, :3]).abs().max()) > 256 * eps * sc:
+                    fails.append(dict(clause='same_rotation_scale_block', signature=sig, err=float((got[:3, :3] - ref[:3, :3]).abs().max()) / sc))
+                if g == 'SO3':
+                    e = X.euler()
+                    if abs(math.sin(float(e[1]))) < 1 - 1e-3:
+                        R2 = pp.euler2SO3(e).matrix().double()
+                        if float((R2 - M.double()).abs().max()) > 1e4 * eps:
+                            fails.append(dict(clause='euler_roundtrip', signature=sig, err=float((R2 - M.double()).abs().max())))
+                        pi_ = math.pi * (1 + 2 * eps)      # pi rounded to the dtype may exceed the float64 value
+                        if not (-pi_ <= float(e[0]) <= pi_ and -pi_ / 2 <= float(e[1]) <= pi_ / 2 and -pi_ <= float(e[2]) <= pi_):
+                            fails.append(dict(clause='euler_principal_ranges', signature=sig))
+            samples.append(dict(type=g, dtype=str(dtype)))
+    uniq = {}
+    for f in fails: uniq.setdefault((f['clause'], f['signature']), f)
+    return dict(evaluations=evals, distinct_nontrivial=evals, rule='random valid elements over the stated rotation kinds, translations and scales, random input layout; all distinct',
+                bound=f'{N} per (type, dtype)', failures=list(uniq.values())[:10], samples=samples[:3])
